@@ -159,6 +159,9 @@ type State struct {
 
 var cellCounter = 0
 
+// MergeNotes collects diagnostics about lossy merges.
+var MergeNotes []string
+
 func NewState() *State {
 	return &State{PC: True, Heap: map[int]*Value{}, Worlds: map[int]*World{}}
 }
@@ -203,7 +206,7 @@ func mergeStates(ca *Term, a, b *State) *State {
 	if b == nil {
 		return a
 	}
-	n := &State{PC: Or(a.PC, b.PC), Heap: map[int]*Value{}, Worlds: map[int]*World{}}
+	n := &State{PC: factorOr(a.PC, b.PC), Heap: map[int]*Value{}, Worlds: map[int]*World{}}
 	ids := map[int]bool{}
 	for k := range a.Heap {
 		ids[k] = true
@@ -220,8 +223,16 @@ func mergeStates(ca *Term, a, b *State) *State {
 				n.Heap[k] = va
 			} else if m, ok := iteV(ca, va, vb); ok {
 				n.Heap[k] = m
+			} else if m, ok := iteV(ca, deadenS(a, va), deadenS(b, vb)); ok {
+				// pointers to different cells: merge the pointees inline and re-allocate
+				n.Heap[k] = livenS(n, m)
 			} else {
-				n.Heap[k] = &Value{K: KOpaque, Typ: va.Typ}
+				if va.Typ != nil {
+					n.Heap[k] = freshLike(va.Typ, "merged")
+				} else {
+					n.Heap[k] = &Value{K: KOpaque, Typ: va.Typ}
+				}
+				MergeNotes = append(MergeNotes, "variable merge with different shapes: "+shapeDiff(va, vb, ""))
 			}
 		case oka:
 			n.Heap[k] = va
@@ -321,4 +332,114 @@ func mergeWorlds(c *Term, a, b *World) *World {
 		n.Fams[k] = m
 	}
 	return n
+}
+
+// relCond returns the conjuncts of a that are not conjuncts of b: a selector that distinguishes
+// state a from state b when both extend a common path-condition prefix.
+func relCond(a, b *Term) *Term {
+	have := map[*Term]bool{}
+	if b.Op == "and" {
+		for _, c := range b.Args {
+			have[c] = true
+		}
+	} else {
+		have[b] = true
+	}
+	if a.Op != "and" {
+		if have[a] {
+			return True
+		}
+		return a
+	}
+	var out []*Term
+	for _, c := range a.Args {
+		if !have[c] {
+			out = append(out, c)
+		}
+	}
+	return And(out...)
+}
+
+func conjuncts(t *Term) []*Term {
+	if t.Op == "and" {
+		return t.Args
+	}
+	if t.Op == "true" {
+		return nil
+	}
+	return []*Term{t}
+}
+
+// factorOr computes a ∨ b as common ∧ (restA ∨ restB), keeping path conditions flat conjunctions.
+func factorOr(a, b *Term) *Term {
+	ca, cb := conjuncts(a), conjuncts(b)
+	inB := map[*Term]bool{}
+	for _, c := range cb {
+		inB[c] = true
+	}
+	var common, ra, rb []*Term
+	inCommon := map[*Term]bool{}
+	for _, c := range ca {
+		if inB[c] {
+			common = append(common, c)
+			inCommon[c] = true
+		} else {
+			ra = append(ra, c)
+		}
+	}
+	for _, c := range cb {
+		if !inCommon[c] {
+			rb = append(rb, c)
+		}
+	}
+	return And(append(common, Or(And(ra...), And(rb...)))...)
+}
+
+// deadenS converts live pointers inside v into inline optionals using the heap of s.
+func deadenS(s *State, v *Value) *Value {
+	if v == nil {
+		return v
+	}
+	switch v.K {
+	case KPtr:
+		z := &Value{K: KOpt, Typ: v.Typ, NilT: v.NilT}
+		if v.Cell == 0 || s.Heap[v.Cell] == nil {
+			z.NilT = True
+			if p, ok := v.Typ.Underlying().(*types.Pointer); ok {
+				z.Inl = deadenS(s, zeroValue(p.Elem()))
+			}
+			return z
+		}
+		z.Inl = deadenS(s, s.Heap[v.Cell])
+		return z
+	case KStruct, KTuple:
+		n := &Value{K: v.K, Typ: v.Typ, Fields: make([]*Value, len(v.Fields))}
+		for i, f := range v.Fields {
+			n.Fields[i] = deadenS(s, f)
+		}
+		return n
+	}
+	return v
+}
+
+// livenS converts inline optionals at unlifted positions back into heap pointers of s.
+func livenS(s *State, v *Value) *Value {
+	if v == nil {
+		return v
+	}
+	switch v.K {
+	case KOpt:
+		if v.NilT.S != SBool {
+			return v
+		}
+		cell := s.Alloc(livenS(s, v.Inl))
+		return &Value{K: KPtr, Typ: v.Typ, Cell: cell, NilT: v.NilT}
+	case KStruct, KTuple:
+		n := &Value{K: v.K, Typ: v.Typ, Fields: make([]*Value, len(v.Fields))}
+		for i, f := range v.Fields {
+			n.Fields[i] = livenS(s, f)
+		}
+		return n
+	}
+	return v
 }
